@@ -15,7 +15,7 @@ REPRS = [
     ("#[repr(i16)]", "i16", "i16"), ("#[repr(u32)]", "u32", "u32"), ("#[repr(i32)]", "i32", "i32"),
     ("#[repr(u64)]", "u64", "u64"), ("#[repr(i64)]", "i64", "i64"),
     ("#[repr(usize)]", "usize", "usize"), ("#[repr(isize)]", "isize", "isize"),
-    ("#[repr(u128)]", "u128", "u128"), ("#[repr(i128)]", "i128", "i128"),
+    # `#[repr(u128)]` and several `#[repr(i128)]` enums make kani-compiler 0.68 panic (rvalue.rs:1009): left out, stated
     ("#[repr(C, u8)]", "u8", "C_u8"), ("#[repr(i16, C)]", "i16", "i16_C"),
     ("#[repr(C)]\n#[repr(i32)]", "i32", "C_then_i32"),
     ("#[repr(u16, align(4))]", "u16", "u16_align4"), ("#[repr(C)]", "isize", "C_only"),
@@ -198,11 +198,11 @@ def shapes(tier):
 
 
 DESCRIPTION = {
-    "grid": "18 repr spellings (none, 12 integer types, `C,u8`, `i16,C`, two attributes, `u16,align(4)`, `C` alone) x "
+    "grid": "16 repr spellings (none, 10 integer types, `C,u8`, `i16,C`, two attributes, `u16,align(4)`, `C` alone) x "
             "up to 15 discriminant layouts (implicit, explicit first, gaps, negative, MIN/MAX edges, empty tuple/brace "
             "variants, fielded variants with/without explicit discriminants, constant expressions with <<, &, ^, |, "
             "`as`, named constants, 2^40-range values) x 5 generic headers (none, lifetime, const, type, all three)",
     "symbolic": "the integer n over the entire repr type",
     "oracle": "rustc's discriminant assignment on a unit-only mirror enum (`Mirror::V as repr`)",
-    "not_covered": ["enums outside the grid", "u128/i128 are covered; `#[try_from(repr(..))]` is rejected by the macro"],
+    "not_covered": ["enums outside the grid", "`#[repr(u128)]`/`#[repr(i128)]` (kani-compiler 0.68 panics in codegen on such enums)", "`#[try_from(repr(..))]` is rejected by the macro"],
 }
